@@ -59,4 +59,20 @@ def valueAfter : VMap → List HOp → VMap
   | m, .edit f :: r => valueAfter (f m) r
   | m, .exp o :: r => valueAfter (afterExport o m) r
 
+/-! ## the arguments of `VMF.parse` are values
+
+`VMF.parse(tree, preserve_ids)` receives a `Keyvalues` OBJECT. In the model a call returns the map
+and leaves the tree as it was; a caller may therefore parse one tree any number of times, with either
+setting, in any order. (That the code neither consumes nor edits the tree is, again, the tie: the
+harness snapshots the tree around every `VMF.parse`, parses one tree object several times with both
+settings in both orders and compares with parses of fresh trees and with `parseTree`.) -/
+
+/-- A call as the caller sees it: the result and the tree afterwards. -/
+def parseCall (p : Bool) (t : List KV) : Except Err VMap × List KV := (parseTree p t, t)
+
+/-- Successive parses of one tree object with the given `preserve_ids` settings. -/
+def parseMany : List KV → List Bool → List (Except Err VMap) × List KV
+  | t, [] => ([], t)
+  | t, p :: ps => ((parseCall p t).1 :: (parseMany (parseCall p t).2 ps).1, (parseMany (parseCall p t).2 ps).2)
+
 end C06
